@@ -1,7 +1,7 @@
 #!/venv/bin/python
 """Re-evaluate every kept seeded change with its owning check only (the confirmation -- demo + suite -- was done when the
 change was kept): copy /repo, apply seeded/<id>/patch.diff, run ./check <property> quick with VERIF_REPO=<copy>, record
-meta.json["detected_by"] / ["rechecked_at"].  usage: tools/seedrecheck.py [-j N] [ids...]"""
+meta.json["detected_by"] / ["rechecked_at"].  usage: tools/seedrecheck.py [--seed N] [-j N] [ids...]"""
 import json
 import os
 import shutil
@@ -11,6 +11,10 @@ import tempfile
 from concurrent.futures import ThreadPoolExecutor
 
 HOME = os.path.dirname(os.path.dirname(os.path.abspath(__file__)))
+
+
+SEED = "1"
+WRITE = True
 
 
 def one(sid):
@@ -23,22 +27,27 @@ def one(sid):
         r = subprocess.run("patch -p1 -s < %s" % os.path.join(d, "patch.diff"), shell=True, cwd=tmp, capture_output=True, text=True)
         if r.returncode != 0:
             return sid, prop, "patch-failed", ""
-        env = dict(os.environ, VERIF_REPO=tmp, VERIF_SEED="1")
+        env = dict(os.environ, VERIF_REPO=tmp, VERIF_SEED=SEED)
         r = subprocess.run([os.path.join(HOME, "check"), prop, "quick", "--no-evidence"], capture_output=True, text=True, env=env)
         viol = [l for l in r.stdout.splitlines() if l.startswith("VIOLATION")]
         head = subprocess.run(["git", "-C", HOME, "rev-parse", "--short", "HEAD"], capture_output=True, text=True).stdout.strip()
         meta["detected_by"] = sorted(set([prop] if r.returncode == 1 else []) | (set(meta.get("detected_by", [])) - {prop}))
         meta["rechecked_at"] = head
         meta["recheck_exit"] = r.returncode
-        json.dump(meta, open(os.path.join(d, "meta.json"), "w"), indent=1)
+        if WRITE:
+            json.dump(meta, open(os.path.join(d, "meta.json"), "w"), indent=1)
         return sid, prop, r.returncode, (viol[0].split("#", 1)[-1].strip()[:110] if viol else (r.stdout + r.stderr).strip().splitlines()[-1][:110])
     finally:
         shutil.rmtree(tmp, ignore_errors=True)
 
 
 def main():
+    global SEED, WRITE
     args = sys.argv[1:]
     j = 3
+    if args[:1] == ["--seed"]:                 # another seed: measures how much a detection depends on luck; meta.json untouched
+        SEED, WRITE = args[1], False
+        args = args[2:]
     if args[:1] == ["-j"]:
         j = int(args[1])
         args = args[2:]
